@@ -63,6 +63,17 @@ def order_edges(spec: dict) -> list[tuple]:
     return edges
 
 
+def certainly_before(spec: dict, wp: str, wph: str, pp: str, pph: str) -> bool:
+    """the provider's phase has certainly completed when the waiter's phase begins (so even an optional lookup must hit)"""
+    parent_of_w = wp.rsplit(".", 1)[0] if "." in wp else ("" if wp else None)
+    if parent_of_w == pp and pph == "prepare" and wp != pp:
+        return True  # a child needs what its parent's prepare() added
+    parent_of_p = pp.rsplit(".", 1)[0] if "." in pp else ("" if pp else None)
+    if parent_of_p == wp and wph == "start" and wp != pp:
+        return True  # a parent's start() needs what a child added
+    return False
+
+
 def acyclic(edges: list[tuple]) -> bool:
     import collections
 
@@ -112,8 +123,9 @@ def build_program(shape: str, pattern: str, deps: tuple, extras: str, pos: str =
                 nd[phase] = None
                 continue
             steps: list = [("td", f"td:{p}:{phase}")]
-            gets = [("get", "RA", resname(pp, pph), api, False) for (wp, wph, pp, pph), api in zip(deps, itertools.cycle(("shortcut", "inject", "method"))) if (wp, wph) == (p, phase)]
-            if pos == "before":
+            gets = [("get", "RA", resname(pp, pph), api, certainly_before(spec, wp, wph, pp, pph) and pub == "res" and pos == "opt", f"{wp}:{wph}<-{pp}:{pph}")
+                    for (wp, wph, pp, pph), api in zip(deps, itertools.cycle(("shortcut", "inject", "method"))) if (wp, wph) == (p, phase)]
+            if pos in ("before", "opt"):
                 steps += gets
             steps.append(("gate", "g"))
             if pos == "after":
@@ -186,9 +198,11 @@ class C05(E1Check):
                     depsets += [tuple(p) for p in pairs[::step]]
                 for deps in depsets:
                     for extras in (("plain", "tdres", "svc", "gen") if not deps else ("plain",)):
-                        for pos in (("before", "after") if deps else ("before",)):
-                            for pub in (("res", "sync", "async") if len(deps) == 1 else ("res",)):
-                                if pattern == "inherited" and (pub != "res" or pos == "after"):
+                        for pos in (("before", "after", "opt") if deps else ("before",)):
+                            for pub in (("res", "sync", "async", "union") if len(deps) == 1 else ("res",)):
+                                if pattern == "inherited" and (pub != "res" or pos != "before"):
+                                    continue
+                                if pos == "opt" and (pub != "res" or not all(certainly_before(SHAPES[shape], *d) for d in deps)):
                                     continue
                                 p = build_program(shape, pattern, deps, extras, pos, pub)
                                 if p is not None:
@@ -303,14 +317,19 @@ class C05(E1Check):
         vis = {n: v for n, v in (st.get("visible") or {}).items() if n not in facnames}
         if vis != exp_vis:
             fail("ownership", f"resources visible in the surrounding context {st.get('visible')} != registered {exp_vis}")
+        # what a dependent component received is what the provider published (also through an optional lookup)
+        for ev in tr:
+            if ev[0] == "get-" and "<-" in str(ev[1]):
+                prov = ev[1].split("<-")[1]
+                exp_labels = (prov, prov + "#1")
+                if ev[2] not in exp_labels:
+                    fail("dependency", f"{ev[1]}: the lookup returned {ev[2]!r}, the provider published {prov!r}")
         # torn down in reverse order when that context is left, nothing before
         li = tr.index(("leaving",))
         regs = []
         for ev in tr[:li]:
             if ev[0] == "td-reg":
                 regs.append(ev[1])
-            elif ev[0] == "added" and program["extras"] == "tdres":
-                regs.append("res:" + ev[5])
         tds = [ev[1] for ev in tr if ev[0] == "td"]
         early = [ev[1] for ev in tr[:li] if ev[0] == "td"]
         if early:
